@@ -6,7 +6,7 @@ assertion over the decoder's locals and ghost counters, followed by a ghost effe
 Call sites are identified by their source-order ordinal inside Decoder.decode."""
 import sys
 from pyvc.specs import contract, fields_of, lemma, implies, iff, index_of, is_fresh, typeof, is_none, same, REG, \
-    rec_has, items_of, ghost, desc_writes_ok
+    rec_has, items_of, ghost, desc_writes_ok, json_content
 
 for _n, _t in dict(pre_model_done='bool', model_done='bool', post_model_done='bool', n_sys_decoded='int',
                    n_sys_added='int', n_agents_decoded='int', n_agents_added='int', last_obj='any',
@@ -188,6 +188,13 @@ LIFECYCLE_GHOSTS = ['ghost:' + n for n in ('pre_model_done', 'model_done', 'post
                                             'sys_pre_done', 'sys_post_done', 'grp_pre_done', 'grp_post_done',
                                             '$ov_has', '$ov_val')]
 
+def json_open_post(self, file_name, result):
+    """The JSON decoder hands decode() exactly the parsed content of the file: nothing filtered, nothing added."""
+    return result is json_content(file_name)
+
+
+contract('Decode.JsonDecoder.open_file', params={'self': 'ref:JsonDecoder', 'file_name': 'str'}, returns='any',
+         ensures={'C18': [json_open_post]}, modifies=['new:obj:File'], native=False, props=['C18'])
 contract('Decode.Decoder.open_file', params={'self': 'ref:Decoder', 'file_name': 'str'}, returns='any',
          kind='abstract', assumes=['open_file (overridden by concrete decoders) returns the description or None'])
 contract('Core.SystemManager.add_system', variant='decode',
